@@ -247,10 +247,8 @@ def suite_mmap(seed, tier):
     return r
 
 
-def search_c04(seed, tier, failures):
-    for kind, d in failures:
-        if isinstance(d, dict) and d.get("suite") in ("mmap", "forms") and "what" in d and "Model" not in d["what"]:
-            return {"violation": d["what"], "input": {k: v for k, v in d.items() if k not in ("what",)}}
+def _direct_release(seed, tier=None):
+    """the release rule evaluated directly on recorded madvise calls of larger files"""
     with tempfile.TemporaryDirectory(prefix="verif_mmap_") as tmp:
         files, P = gen_files(seed + 1, "thorough", tmp)
         for paths, cols, dt in files:
@@ -258,17 +256,23 @@ def search_c04(seed, tier, failures):
             for (rel, offset, rows, itemsize, c) in recs:
                 v = check_release_direct(rel, offset, rows, itemsize, c, P)
                 if v:
-                    return {"violation": v, "input": {"cols": c, "itemsize": itemsize, "rows": rows,
-                                                      "file_sizes": [int(np.load(q, mmap_mode='r').shape[0]) for q in paths]}}
-    rr = suite_forms(seed + 1, "quick")
-    for b in rr.bad:
-        if "Model" not in b["what"] and "model" not in b["what"]:
-            return {"violation": b["what"], "input": b}
+                    return {"violation": v, "release_seed": seed,
+                            "input": {"cols": c, "itemsize": itemsize, "rows": rows,
+                                      "file_sizes": [int(np.load(q, mmap_mode='r').shape[0]) for q in paths]}}
     return None
 
 
+def search_c04(seed, tier, failures):
+    import replay_util
+    return replay_util.make_search([suite_forms, suite_mmap], extra=_direct_release)(seed, tier, failures)
+
+
 def replay_c04(payload):
-    return search_c04(payload.get("seed", 0) - 1, "quick", []) is None
+    import replay_util
+    fi = payload.get("failing_input") or {}
+    if "release_seed" in fi:
+        return _direct_release(fi["release_seed"]) is None
+    return replay_util.make_replay([suite_forms, suite_mmap])(payload)
 
 
 if __name__ == "__main__":
